@@ -64,6 +64,12 @@ void HARNESS(void)
     total += in_len[i];
   }
   __CPROVER_assume(in_size <= total && in_gi < K && in_gp < LMAX && in_gj < TOTALMAX && in_gj2 < TOTALMAX);
+#ifdef FIX_MWMA      /* one job per algorithm value (assigned): the variants are separate code paths */
+  in_mwma = FIX_MWMA;
+#endif
+#ifdef FIX_SIZE
+  in_size = FIX_SIZE;
+#endif
   __CPROVER_assume(in_mwma <= 4);          /* MWMA_LOSER_TREE, _COMBINED, _SENTINEL, _BUBBLE and the default alias */
   ir_live_allocs = 3; ir_throw_allowed = 0;
   uint64_t lens[K]; for (unsigned i = 0; i < K; i++) lens[i] = in_len[i];
